@@ -71,8 +71,27 @@ def _ctor(cls, rate):
 
 
 # constructor conventions (argument order a user passes -> the program's operand order = emitted input order)
+EXTRA_CLASSES = {}
+
+
+def _extra_classes(ugn):
+    """a user defined unit class that is NOT registered in sc3.synth.ugens.installed_ugens: definitions using it
+    build and write fine, but the library's own reader cannot re-create them (read-back fails)"""
+    if not EXTRA_CLASSES:
+        class VerifUnknownUGen(ugn.UGen):
+            @classmethod
+            def ar(cls, freq=440.0):
+                return cls._multi_new('audio', freq)
+
+            @classmethod
+            def kr(cls, freq=440.0):
+                return cls._multi_new('control', freq)
+        EXTRA_CLASSES['VerifUnknownUGen'] = VerifUnknownUGen
+    return EXTRA_CLASSES
+
+
 def _call_gen(ugens, ins, args):
-    cls = ugens.installed_ugens[ins['cls']]
+    cls = ugens.installed_ugens.get(ins['cls']) or EXTRA_CLASSES[ins['cls']]
     name = ins['cls']
     f = _ctor(cls, ins['rate'])
     if name in ('In', 'InFeedback', 'InTrig'):
@@ -114,6 +133,7 @@ def release_bytes(sd):
 class Builder:
     def __init__(self):
         (self.sc3, self.bi, self._libsc3, self.ugn, self.sdf, self.sdc, self.ugens) = _imports()
+        _extra_classes(self.ugn)
         self.un = _un_table(self.bi)
         self.bin = _bin_table(self.bi)
 
@@ -207,7 +227,7 @@ class Builder:
         return lambda: body()
 
     # ------------------------------------------------------------------ build + projection
-    def build(self, prog, *, desc=False, hook=None, keep=False, variants=None, gc_safe=True):
+    def build(self, prog, *, desc=False, hook=None, keep=False, variants=None, gc_safe=True, post=None):
         """returns the record for one build attempt.  gc_safe: drop the memoryview SynthDef.as_bytes()
         caches (on the pinned tree collecting such a SynthDef can kill the process - that defect is
         observed on purpose by the C20 driver only)"""
@@ -260,6 +280,9 @@ class Builder:
             if desc and rec['parsed']['ok'] == 1:
                 rec['desc'] = [self.describe(lambda: self.sdc.SynthDesc.new_from(sd)),
                                self.describe(lambda: self.sdc.SynthDesc._read_stream(io.BytesIO(data))[0])]
+            if post is not None:
+                # something done with the finished definition (add / store / ...): recorded, not judged
+                rec['post'] = post(sd, data)
             if gc_safe:
                 release_bytes(sd)
         return rec
@@ -315,4 +338,10 @@ class Builder:
             owner = 0 if u._synthdef is None else 1
         except Exception:
             owner = 2
-        return dict(ctx_none=ctx_none, lock_free=lock_free, orphan_owned=owner)
+        wrap = 0
+        try:
+            self.sdf.SynthDef.wrap(lambda: None)
+            wrap = 1                      # SynthDef.wrap worked although no build is running
+        except Exception:
+            pass
+        return dict(ctx_none=ctx_none, lock_free=lock_free, orphan_owned=owner, wrap=wrap)
